@@ -317,6 +317,10 @@ def gen_scenario(rng, prof=None, force_selflock=None):
         u2 = rng.choice(time_units_for(dt_si))
         same = rng.random() < 0.5
         dt2 = reexpress(dt, u2) if same else Q('TimeInterval', sig(dt_si * rng.choice([0.5, 2, 0.25, 1]) / SI.FACT['Time'][u2], 2), u2)
+        smaller = {'sec': 'ms', 'min': 'sec', 'hour': 'min'}.get(dt['u'])
+        if smaller is not None and rng.random() < p.get('p_same_number_step', 0.15):
+            # the continuation step has the same NUMBER as the first one, in the next smaller unit (a finer step: the dynamics stay gentle)
+            dt2 = Q('TimeInterval', dt['v'], smaller)
         if dt2['v'] > 0:
             sched.append({'op': 'run', 'dt': dt2, 'T': mulq(dt2, rng.randint(3, max(4, n // 2)))})
     if rng.random() < p['p_reset']:
